@@ -63,7 +63,7 @@ def event(theta, est, method, alphas, nan, cid, ids, dtype, seed):
     rnd = np.random.RandomState(seed + cid)
     e = {"id": next(ids), "cid": cid, "op": "bootci", "exc": "", "theta": theta, "est": est,
          "method": method, "alphas": alphas, "dtype": dtype, "shape_ok": True,
-         "out": {}, "outq": {}, "v_nan": {}, "v_perm": {}, "v_aff": {}, "v_stack": {}, "aff": [2, 1]}
+         "out": {}, "outq": {}, "v_nan": {}, "v_perm": {}, "v_aff": {}, "v_stack": {}, "v_small": {}, "aff": [2, 1]}
     try:
         th = to_arr(theta, nan, dtype)
         thf = th.astype(float)
@@ -88,6 +88,9 @@ def event(theta, est, method, alphas, nan, cid, ids, dtype, seed):
             e["v_perm"][str(a)] = [fx6(r3[0]), fx6(r3[1])]
             r4 = np.asarray(bootstrap_ci(k * thf + c, k * est + c, al, method=method))
             e["v_aff"][str(a)] = [fx6(r4[0]), fx6(r4[1])]
+            # the same data in small units (x 1e-5): limits must scale with them
+            r8 = np.asarray(bootstrap_ci(thf * 1e-5, est * 1e-5, al, method=method)) * 1e5
+            e["v_small"][str(a)] = [fx6(r8[0]), fx6(r8[1])]
             r5 = np.asarray(bootstrap_ci(stack, est_stack, al, method=method))
             ok = ok and r5.shape == (2, 2)
             e["v_stack"][str(a)] = [fx6(r5[1][0]), fx6(r5[1][1])] if r5.shape == (2, 2) else [LIM, LIM]
